@@ -5,7 +5,8 @@ Expressions (tuples):
   ("n", k) | ("v", key, x)  logged reference (lg key x) | ("+", a, b) | ("<", a, b)
   ("setx", x, e) | ("lgv", key, e)  (lg key e) | ("stm", key, e)  (do (lg key 0) e): leaves a statement
   ("list", [e ...]) | ("range", k)
-Clauses: ("for", x, iterable) | ("if", e) | ("setv", x, e) | ("do", e) | ("dobrk", e)  :do (when e (break))
+Targets: a name x | ("tup", kind, [x | ("star", x) ...])   kind "#(" or "[": #(a #* b) / [a #* b]
+Clauses: ("for", target, iterable) | ("if", e) | ("setv", x, e) | ("do", e) | ("dobrk", e)  :do (when e (break))
          | ("docnt", e)  :do (when e (continue))
 Forms:
   ("comp", kind, clauses, final)   kind in lfor sfor gfor dfor;
@@ -43,14 +44,52 @@ def rx(e):
     raise ValueError(e)
 
 
+def rtarget(t):
+    if isinstance(t, str):
+        return t
+    items = " ".join(i if isinstance(i, str) else "#* " + i[1] for i in t[2])
+    return ("#(%s)" if t[1] == "#(" else "[%s]") % items
+
+
+def target_names(t):
+    if isinstance(t, str):
+        return [t]
+    return [i if isinstance(i, str) else i[1] for i in t[2]]
+
+
+def bind_target(t, v, assign):
+    """Python's unpacking of v into the target; TypeError/ValueError propagate"""
+    if isinstance(t, str):
+        assign(t, v)
+        return
+    items = t[2]
+    v = list(v)
+    star = [k for k, i in enumerate(items) if not isinstance(i, str)]
+    if not star:
+        if len(v) != len(items):
+            raise ValueError("unpack")
+        for i, x in zip(items, v):
+            assign(i, x)
+        return
+    k = star[0]
+    after = len(items) - k - 1
+    if len(v) < len(items) - 1:
+        raise ValueError("unpack")
+    for i, x in zip(items[:k], v[:k]):
+        assign(i, x)
+    assign(items[k][1], v[k:len(v) - after])
+    for i, x in zip(items[k + 1:], v[len(v) - after:]):
+        assign(i, x)
+
+
 def rclause(c):
     k = c[0]
     if k == "for":
-        return "%s %s" % (c[1], rx(c[2]))
+        return "%s %s" % (rtarget(c[1]), rx(c[2]))
     if k == "if":
         return ":if %s" % rx(c[1])
     if k == "setv":
-        return ":setv %s %s" % (c[1], rx(c[2]))
+        return ":setv %s %s" % (rtarget(c[1]), rx(c[2]))
     if k == "do":
         return ":do %s" % rx(c[1])
     if k == "dobrk":
@@ -94,7 +133,8 @@ def render_program(prog):
     inits = " ".join("(setv %s %d)" % (x, k) for x, k in init)
     if form[0] == "comp" and form[1] == "gfor" and lazy:
         use = ('(setv res (%s)) (lg "created" 0) (setv out []) '
-               '(for [el res] (.append out el) (lg "got" el)) (lg "res" out)' % rform(form)[1:-1])
+               '(for [el res] (.append out el) (lg "got" el) (lg "step" (dict (%s)))) (lg "res" out)'
+               % (rform(form)[1:-1], "globals" if scope == "module" else "locals"))
     elif form[0] == "comp":
         conv = {"lfor": "res", "gfor": "(list res)", "sfor": "(sorted res)", "dfor": "(sorted (.items res))"}[form[1]]
         use = '(setv res %s) (lg "res" %s)' % (rform(form), conv)
@@ -200,7 +240,7 @@ class Ref:
             it = first[0] if first is not None and first[0] is not None else \
                 self.ev(c[2], None if first is not None else own)
             for v in it:
-                own["vars"][c[1]] = v
+                bind_target(c[1], v, own["vars"].__setitem__)
                 try:
                     yield from self.loop(rest, own, final)
                 except Cnt:
@@ -212,9 +252,9 @@ class Ref:
                 yield from self.loop(rest, own, final)
         elif k == "setv":
             if first is not None and first[0] is not None:
-                own["vars"][c[1]] = first[0][0]
+                bind_target(c[1], first[0][0], own["vars"].__setitem__)
             else:
-                own["vars"][c[1]] = self.ev(c[2], own)
+                bind_target(c[1], self.ev(c[2], own), own["vars"].__setitem__)
             yield from self.loop(rest, own, final)
         elif k == "do":
             self.ev(c[1], own)
@@ -230,7 +270,7 @@ class Ref:
 
     def run_comp(self):
         _, kind, clauses, final = self.form
-        own = {"names": {c[1] for c in clauses if c[0] in ("for", "setv")}, "vars": {}}
+        own = {"names": {n for c in clauses if c[0] in ("for", "setv") for n in target_names(c[1])}, "vars": {}}
         if not clauses:
             els = iter(())      # tests/native_tests/comprehensions.hy::test-fors-no-loopers: no clauses, no elements
         else:
@@ -262,6 +302,7 @@ class Ref:
             for el in els:
                 out.append(el)
                 self.log.append(["got", el])
+                self.log.append(["step", dict(sorted((k, v) for k, v in self.outer.items() if k in WATCH))])
             self.log.append(["res", out])
             return
         out = list(els)
@@ -300,7 +341,7 @@ class Ref:
             if k == "for":
                 broke = False
                 for v in self.ev(c[2], None):
-                    assign(c[1], v)
+                    bind_target(c[1], v, assign)
                     try:
                         go(i + 1)
                     except Cnt:
@@ -314,7 +355,7 @@ class Ref:
                 if self.ev(c[1], None):
                     go(i + 1)
             elif k == "setv":
-                assign(c[1], self.ev(c[2], None))
+                bind_target(c[1], self.ev(c[2], None), assign)
                 go(i + 1)
             elif k == "do":
                 self.ev(c[1], None)
@@ -348,7 +389,7 @@ def static_no_claim(prog):
         return None
     final = form[3]
     subs = [x for c in clauses for x in exprs_of_clause(c)] + list(final[1:])
-    own = {c[1] for c in clauses if c[0] in ("for", "setv")}
+    own = {n for c in clauses if c[0] in ("for", "setv") for n in target_names(c[1])}
     if scope == "class" and any(has(x, "setx") for x in subs):
         return "setx inside a comprehension form in a class body (CPython forbids the walrus there)"
     if any(has(c[2], "setx") for c in clauses if c[0] == "for"):
@@ -491,6 +532,28 @@ class Gen:
                 if i == 0 and r.random() < 0.85:
                     k = "for"
             setx_ok = r.random() < 0.5
+            if k in ("for", "setv") and r.random() < 0.22:
+                # a destructuring target, usually with a starred name: #(a #* b) / [a #* b]
+                names = r.sample(OWN + ("p", "q"), r.randint(2, 3))
+                star = r.randrange(len(names)) if r.random() < 0.8 else None
+                t = ("tup", r.choice(["#(", "["]), [n if j != star else ("star", n) for j, n in enumerate(names)])
+                need = len(names) - (1 if star is not None else 0)
+
+                def row():
+                    n = need + (r.randint(0, 2) if star is not None else 0)
+                    return ("list", [("n", r.randint(0, 4)) for _ in range(n)])
+                if k == "for":
+                    it = ("list", [row() for _ in range(r.randint(0, 2))])
+                    if stm_p and r.random() < stm_p:
+                        it = ("stm", self.skey(), it)
+                    out.append(("for", t, it))
+                else:
+                    v = row()
+                    if stm_p and r.random() < stm_p:
+                        v = ("stm", self.skey(), v)
+                    out.append(("setv", t, v))
+                vis += [n for j, n in enumerate(names) if j != star]
+                continue
             if k == "for":
                 x = r.choice(OWN)
                 out.append(("for", x, self.iterable(vis, stm_p, setx_ok)))
